@@ -2,6 +2,7 @@
 from __future__ import annotations
 
 import re
+import time
 
 from .. import gen as G
 from ..apps.script import pattern
@@ -25,7 +26,7 @@ ASSUMPTIONS = [
     "application header names are lower-case and exclude connection-specific fields (outside 'well-formed for the protocol')",
     "1xx is not used as a final status",
 ]
-MIN_DECISIVE = {"h1.parse": 20, "h1.headers": 20, "h1.body": 20, "h2.headers": 20, "h2.body": 20, "h2.end": 20}
+MIN_DECISIVE = {"h1.parse": 20, "h1.headers": 20, "h1.body": 20, "h2.headers": 20, "h2.body": 20, "h2.end": 20, "real-download": 6}
 import os
 NO_TRAILERS = bool(os.environ.get('HV_NO_TRAILERS'))
 N_CASES = {"quick": 2500, "thorough": 50000}
@@ -207,7 +208,172 @@ def _gen(rng, tier):
             yield _case_h2(rng, tier, i, h2c=True)
 
 
+class _StreamApp:
+    """Real ASGI application for the real-socket downloads: a response of tens of MiB in pieces of varying size."""
+
+    def __init__(self, payload, sizes, declare_length):
+        self.payload, self.sizes, self.declare_length = payload, sizes, declare_length
+        self.polling = True
+        self.sent = 0
+        self.done = False
+
+    async def __call__(self, scope, receive, send, *a):
+        if scope["type"] == "lifespan":
+            while True:
+                m = await receive()
+                await send({"type": m["type"] + ".complete"})
+                if m["type"] == "lifespan.shutdown":
+                    return
+        await receive()
+        hs = [(b"x-real", b"1")] + ([(b"content-length", b"%d" % len(self.payload))] if self.declare_length else [])
+        await send({"type": "http.response.start", "status": 200, "headers": hs})
+        off, k = 0, 0
+        while off < len(self.payload):
+            n = self.sizes[k % len(self.sizes)]
+            k += 1
+            c = self.payload[off:off + n]
+            off += len(c)
+            await send({"type": "http.response.body", "body": c, "more_body": True})
+            self.sent = off
+        await send({"type": "http.response.body", "body": b"", "more_body": False})
+        self.done = True
+
+
+def _real_download(case, tally):
+    """Real serve() on loopback; the client reads a response of tens of MiB at its own pace.  Over HTTP/2 the client is the flow-control
+    accountant (small windows, credit dripped), so every DATA frame is checked against the windows in force when it arrived; the body is
+    compared by hash, its end must be signalled exactly once.  No verdict depends on a duration; 8 s without any progress while the
+    response is incomplete is a stall."""
+    import hashlib
+    import random as _random
+    import socket as _socket
+
+    from ..wire.h2raw import FrameBuilder, H2Reactor, client_preface
+    from ..world.realnet import ServeHarness
+
+    findings = []
+    be, carrier, size, tag = case["backend"], case["carrier"], case["size"], case["tag"]
+    rnd = _random.Random(tag)
+    payload = rnd.randbytes(1 << 16) * (size >> 16)
+    want = hashlib.sha256(payload).hexdigest()
+    h = ServeHarness(be, {"keep_alive_timeout": 60.0, "graceful_timeout": 0.5}, {"default": [["recv_until_end"], ["respond", 200, [], b"d"]]})
+    app = h.apps = _StreamApp(payload, case["sizes"], carrier == "h1-cl")
+    sock, stalled, got, ends, viol = None, False, hashlib.sha256(), 0, []
+    nbytes = 0
+    try:
+        h.start()
+        h.wait_ready()
+        sock = h.connect()
+        if sock is None:
+            tally.inconclusive["no-connection-established"] += 1
+            return findings, [None]
+        if carrier.startswith("h1"):
+            sock.sendall(b"GET /t%d HTTP/1.1\r\nHost: h\r\nConnection: close\r\n\r\n" % tag)
+            sock.settimeout(8.0)
+            buf = bytearray()
+            try:
+                while True:
+                    x = sock.recv(rnd.choice([100, 4096, 65536, 1 << 20]))
+                    if not x:
+                        break
+                    buf += x
+                    if case["slow"] and len(buf) % 7 == 0:
+                        time.sleep(0.001)
+            except _socket.timeout:
+                stalled = True
+            except OSError:
+                pass
+            try:
+                resps, _rest = h1.parse_responses(bytes(buf), [("GET", "1.1")], True)
+                if resps and resps[0].complete:
+                    ends = 1
+                    body = resps[0].body
+                    got.update(body)
+                    nbytes = len(body)
+                elif resps:
+                    nbytes = len(resps[0].body)
+            except h1.Malformed as e:
+                findings.append({"clause": "h1.parse", "sig": "C02.real/malformed/%s" % carrier, "backend": be, "detail": str(e)[:200]})
+        else:
+            fb = FrameBuilder()
+            spec = {"kind": "h2", "credit": case["credit"], "initial_window": case["iw"], "max_frame": 16384}
+            rx = H2Reactor(spec, None)
+            rx.fb = fb
+            sock.sendall(client_preface(fb, spec) + fb.headers(1, [(b":method", b"GET"), (b":scheme", b"http"), (b":path", b"/t%d" % tag), (b":authority", b"h")],
+                                                                end_stream=True))
+            sock.settimeout(0.05)
+            last, since = -1, time.monotonic()
+            while True:
+                s1 = rx.streams.get(1)
+                if s1 is not None and (s1.ended or s1.rst is not None):
+                    break
+                try:
+                    data = sock.recv(rnd.choice([100, 16384, 1 << 18]))
+                    if not data:
+                        break
+                    steps = rx.react(data, 0.0)
+                except _socket.timeout:
+                    steps = rx.react(b"", 0.0)  # quiescent: a dripping client grants its next credit
+                except OSError:
+                    break
+                for st in steps:
+                    sock.sendall(st[1])
+                n_now = len(s1.data) if s1 is not None else 0
+                if n_now != last:
+                    last, since = n_now, time.monotonic()
+                elif time.monotonic() - since > 8.0:
+                    stalled = True
+                    break
+            s1 = rx.streams.get(1)
+            if s1 is not None:
+                got.update(bytes(s1.data))
+                nbytes = len(s1.data)
+                ends = s1.ended
+            viol = list(rx.violations)
+            tally.events["real.h2-data-frames"] += s1.data_frames if s1 is not None else 0
+    finally:
+        if sock is not None:
+            try:
+                sock.close()
+            except OSError:
+                pass
+        h.trigger_shutdown()
+        h.wait_done(5.0)
+        h.close()
+    tally.clause("real-download")
+    tally.events["real.bytes-received"] += nbytes
+    if viol:
+        findings.append({"clause": "h2.body", "sig": "C02.real/flow-control-exceeded/%s" % viol[0][0], "backend": be, "detail": "accountant: %r" % (viol[:3],)})
+    if stalled:
+        findings.append({"clause": "h2.body" if carrier == "h2" else "h1.body", "sig": "C02.real/stalled/%s" % carrier, "backend": be,
+                         "detail": "the response stopped at %d of %d bytes (application had handed over %d) and nothing moved for 8 s" % (nbytes, len(payload), app.sent)})
+    elif nbytes != len(payload) or got.hexdigest() != want or ends != 1:
+        findings.append({"clause": "h2.body" if carrier == "h2" else "h1.body", "sig": "C02.real/body-mismatch/%s" % carrier, "backend": be,
+                         "detail": "application sent %d bytes sha256 %s; client received %d bytes sha256 %s, end signalled %r time(s)" % (
+                             len(payload), want[:16], nbytes, got.hexdigest()[:16], ends)})
+    return findings, [None]
+
+
+def run_one(case, tally):
+    if case.get("tierb"):
+        return _real_download(case, tally)
+    import sys
+
+    from ..runner import default_run_one
+
+    return default_run_one(sys.modules[__name__], case, tally)
+
+
 def gen(rng, tier):
+    # the same property against the real transports: responses far larger than any buffer on the way, a client reading at its own pace
+    for rep in range(1 if tier == "quick" else 4):
+        for be in ("asyncio", "trio"):
+            for carrier, credit, iw in (("h1-cl", None, None), ("h1-chunked", None, None), ("h2", "auto", 65535), ("h2", {"drip": 40000}, 20000),
+                                        ("h2", {"drip": 1 << 20, "order": "conn_first"}, 1 << 20)):
+                yield {"family": "real-download.%s.%s" % (carrier, "auto" if credit in (None, "auto") else "drip%d" % credit["drip"]), "tierb": True, "backend": be,
+                       "carrier": carrier, "credit": credit, "iw": iw, "size": (32 if carrier != "h2" or credit == "auto" else 6) << 20,
+                       "sizes": rng.choice([[65536], [1, 70000, 300, 16384], [1 << 20, 5]]), "slow": rng.random() < 0.5,
+                       "tag": 770000 + rng.randrange(10000), "rep": rep}
     for case in _gen(rng, tier):
         if rng.random() < 0.25:
             # pieces of a segmented write a few scheduler turns apart instead of after the server has come to rest
@@ -218,6 +384,8 @@ def gen(rng, tier):
 
 
 def nontrivial(case, obs):
+    if obs is None:
+        return True
     return bool(obs.out)
 
 
